@@ -358,7 +358,10 @@ def param2argparse_param(param, word_wrap=True, emit_default_doc=True):
                         ),
                         keyword(
                             arg="help",
-                            value=set_value((fill if word_wrap else identity)(doc)),
+                            value=set_value(
+                                # argparse %-formats help strings: a literal '%' is written doubled
+                                (fill if word_wrap else identity)(doc).replace("%", "%%")
+                            ),
                             identifier=None,
                         )
                         if doc
